@@ -552,6 +552,8 @@ pub fn scen_reopen(ctx: &Ctx) -> i32 {
         let mut p = Profile::basic(kt, n, 120);
         p.w = [40, 12, 12, 3, 3, 1, 4, 0, 1, 8, 0, 2, 0, 1];
         p.val_mode = *r.pick(&[1u8, 2, 2, 3]);
+        // long keys too: freed key slots of every class (also the shared large list) exist at close
+        p.key_mode = *r.pick(&[0u8, 0, 2, 2, 3]);
         p.pool = r.range(3, 25) as usize;
         let mut s = gen_history(&mut r, &p);
         // after each reopen look at everything: len, full iteration, then lookups
@@ -1184,6 +1186,39 @@ fn gen_compare(d: &mut Driver, g: &mut GenCheck, req: String, want: String, poin
     }
 }
 
+fn enc_len(v: u64) -> u64 {
+    // vu64 format table: 7 bits per byte up to 8 bytes, 9 bytes beyond 2^56
+    let mut l = 1;
+    while l < 9 && v >= 1u64 << (7 * l) {
+        l += 1;
+    }
+    l
+}
+
+/// independent check of the crate's slot choice (layout-probe hook): the record encoded per the
+/// documented layout must fit the slot the crate reserves for it. First violation is recorded.
+static FIT_VIOLATION: Mutex<Option<String>> = Mutex::new(None);
+
+fn fit_value(len: u64, slot: u64) {
+    let need = enc_len(slot / 8) + enc_len(len) + len;
+    if need > slot || slot % 8 != 0 {
+        let mut g = FIT_VIOLATION.lock().unwrap();
+        if g.is_none() {
+            *g = Some(format!("value of {} bytes: the crate reserves a slot of {} bytes, the record (size field {} + length field {} + payload) needs {}", len, slot, enc_len(slot / 8), enc_len(len), need));
+        }
+    }
+}
+
+fn fit_key(klen: u64, vo: u64, nx: u64, slot: u64) {
+    let need = enc_len(slot / 8) + enc_len(klen) + klen + enc_len(vo / 8) + enc_len(nx / 8);
+    if need > slot || slot % 8 != 0 {
+        let mut g = FIT_VIOLATION.lock().unwrap();
+        if g.is_none() {
+            *g = Some(format!("key of {} bytes, value offset {}, next offset {}: the crate reserves a slot of {} bytes, the record needs {}", klen, vo, nx, slot, need));
+        }
+    }
+}
+
 /// C09 (and the `Gen` part of C10/C12): sizing functions, tables, hash, conversions
 pub fn scen_sizes(ctx: &Ctx) -> i32 {
     use abyssiniandb::filedb::verif as V;
@@ -1208,6 +1243,7 @@ pub fn scen_sizes(ctx: &Ctx) -> i32 {
             ranges.push((c.saturating_sub(200), c + 200));
         }
     }
+    // (every pair of offset-width classes gets at least key lengths 0..420)
     let offs: Vec<u64> = vec![0, 192, 1016, 1024, 16376, 16384, 131_064, 131_072, (1 << 21) - 8, 1 << 21, 1 << 24, (1 << 28) - 8, 1 << 28, 1 << 35, 1 << 42, 1 << 49, 1 << 56, (1u64 << 63) - 8];
     let results: Mutex<Vec<GenCheck>> = Mutex::new(Vec::new());
     let next = Mutex::new(0usize);
@@ -1220,6 +1256,9 @@ pub fn scen_sizes(ctx: &Ctx) -> i32 {
         for (j, nx) in offs.iter().enumerate() {
             // thorough: all key lengths 0..2^16 for every offset-width class on the diagonal and one
             // off-diagonal neighbour, 0..3040 + the window around 65536 for all 18x18 pairs
+            if !thorough && !((i + j) % 3 == 0 || i == j) {
+                jobs.push(("k".into(), 0, 420, *vo, *nx));
+            }
             let full = thorough && (i == j || i + 1 == j || j + 1 == i);
             if full {
                 jobs.push(("k".into(), 0, kmax + 40, *vo, *nx));
@@ -1257,6 +1296,7 @@ pub fn scen_sizes(ctx: &Ctx) -> i32 {
                         let want = bp(
                             |l| {
                                 let (est, slot) = V::value_slot(l as usize);
+                                fit_value(l, slot as u64);
                                 ((est as u64).wrapping_sub(l), slot as u64)
                             },
                             *a,
@@ -1267,6 +1307,7 @@ pub fn scen_sizes(ctx: &Ctx) -> i32 {
                         let want = bp(
                             |l| {
                                 let (est, slot) = V::key_slot(l as usize, *vo, *nx);
+                                fit_key(l, *vo, *nx, slot as u64);
                                 ((est as u64).wrapping_sub(l), slot as u64)
                             },
                             *a,
@@ -1336,9 +1377,15 @@ pub fn scen_sizes(ctx: &Ctx) -> i32 {
         }
     }
     let wall = t0.elapsed().as_secs_f64();
-    let ok = g.mismatches.is_empty();
+    let fitv = FIT_VIOLATION.lock().unwrap().clone();
+    let ok = g.mismatches.is_empty() && fitv.is_none();
     let mut failures = Vec::new();
-    if !ok {
+    if let Some(v) = &fitv {
+        let path = ctx.replays.join(format!("{}-oracle-fit-{:016x}.txt", ctx.prop, fnv(v)));
+        let _ = std::fs::write(&path, format!("# property={} facet=oracle: the crate's own slot-size decision (layout-probe hook abyssiniandb::filedb::verif::value_slot / key_slot) against the record length computed from the documented layout\n# {}\n", ctx.prop, v));
+        failures.push(obj(&[("facet", esc("oracle")), ("replay", esc(&path.to_string_lossy())), ("detail", esc(v))]));
+    }
+    if !g.mismatches.is_empty() {
         let path = ctx.replays.join(format!("{}-gen-{:016x}.txt", ctx.prop, fnv(&g.mismatches.join("|"))));
         let _ = std::fs::write(&path, format!("# property={} facet=gen: generated Lean functions vs the crate's compiled functions (layout-probe hook)\n{}\n", ctx.prop, g.mismatches.join("\n")));
         failures.push(obj(&[("facet", esc("gen")), ("replay", esc(&path.to_string_lossy())), ("detail", esc(&g.mismatches[0]))]));
